@@ -21,6 +21,7 @@ import OFV.Proofs.C09Enc
 import OFV.Proofs.C09Sum
 import OFV.Proofs.C09JwEq
 import OFV.Proofs.C09BkEq
+import OFV.Proofs.C09Struct
 
 namespace OFV.C09
 open OFV.Model.C09 OFV.Spec.C09
@@ -503,6 +504,56 @@ theorem bct_bk_eq_bk (n : Nat) (c : Code) (hc : bravyiKitaevCode n = .ok c) (h R
     Sem.den .qubit R [Spec.C05.enc .bk n s] [Spec.C05.enc .bk n out] =
       Sem.den .qubit (Model.C05.bkFermion 0 n h) [Spec.C05.enc .bk n s] [Spec.C05.enc .bk n out] :=
   bct_bk_eq_bk' n c hc h R hwf hR s out hs ho
+
+/-! ## structural hypotheses of binary_code_transform_sound (`Struct`: one decoder polynomial per mode, no empty
+monomial) for every constructor, closed under `+` and integer `*`; soundness for derived codes -/
+
+/-- every constructor of binary_codes.py yields a code with the decoder structure `binary_code_transform` needs -/
+theorem constructors_struct :
+    (∀ n c, jordanWignerCode n = .ok c → Struct c) ∧ (∀ n c, bravyiKitaevCode n = .ok c → Struct c) ∧
+    (∀ n c, parityCode n = .ok c → Struct c) ∧ (∀ n odd c, checksumCode n odd = .ok c → Struct c) ∧
+    (∀ n c, interleavedCode n = .ok c → Struct c) ∧ (∀ e c, weightOneBinaryAddressingCode e = .ok c → Struct c) ∧
+    (∀ c, weightOneSegmentCode = .ok c → Struct c) ∧ (∀ c, weightTwoSegmentCode = .ok c → Struct c) :=
+  ⟨fun n c h => (jw_structure n c h).2.2, fun n c h => (bk_structure n c h).2, fun n c h => (parity_structure n c h).2,
+    fun n odd c h => (checksum_structure n odd c h).2, fun n c h => (interleaved_structure n c h).2,
+    fun e c h => w1ba_struct e c h, fun c h => w1seg_struct c h, fun c h => w2seg_struct c h⟩
+
+/-- `Struct` is closed under appending and integer repetition -/
+theorem struct_closed (a b c : Code) (sa : Struct a) (sb : Struct b) :
+    (a.iadd b = .ok c → Struct c) ∧ (∀ m : Nat, a.imulInt ((m + 1 : Nat) : Int) = .ok c → Struct c) :=
+  ⟨fun h => iadd_struct a b c h sa sb, fun m h => imulInt_struct a m c h sa⟩
+
+/-- **binary_code_transform_sound for `c = a + b`**: when `a` and `b` decode what they encode on `domA`, `domB`, and the
+terms of the Hamiltonian map the product domain `{va ++ vb}` to itself (or to 0), the transform with `c` has the Spec
+matrix elements between the encoded states of the product domain. -/
+theorem bct_append_sound (a b c : Code) (h : a.iadd b = .ok c) (ha : Shaped a) (sa : Struct a) (sb : Struct b)
+    (domA domB : List Nat → Prop)
+    (hA : ∀ v, domA v → v.length = a.nm ∧ (∀ x ∈ v, x ≤ 1) ∧ ValidOn a v)
+    (hB : ∀ v, domB v → v.length = b.nm ∧ (∀ x ∈ v, x ≤ 1) ∧ ValidOn b v)
+    (H R : Model.Op) (hwf : ∀ tc ∈ H, ∀ f ∈ tc.1, f.2 ≤ 1 ∧ f.1 < a.nm + b.nm)
+    (v u : List Nat) (hv : ∃ va vb, v = va ++ vb ∧ domA va ∧ domB vb) (hu : ∃ ua ub, u = ua ++ ub ∧ domA ua ∧ domB ub)
+    (wq xq s out : Nat) (hw : bitsOf wq = encFn c v) (hx : bitsOf xq = encFn c u)
+    (hs : ∀ j, s.testBit j = (v.getD j 0 == 1)) (ho : ∀ j, out.testBit j = (u.getD j 0 == 1))
+    (hpres : ∀ tc ∈ H, ∀ k s', Spec.actFTerm tc.1 s = some (k, s') →
+      ∃ wa wb, occList s' (a.nm + b.nm) = wa ++ wb ∧ domA wa ∧ domB wb)
+    (hR : binaryCodeTransform 0 H c = .ok R) :
+    Sem.den .qubit R [wq] [xq] = Spec.melF H out s :=
+  bct_append_sound' a b c h ha sa sb domA domB hA hB H R hwf v u hv hu wq xq s out hw hx hs ho hpres hR
+
+/-- … and for `c = (m + 1) * a` on the `(m + 1)`-fold product domain -/
+theorem bct_int_mul_sound (a : Code) (ha : Shaped a) (sa : Struct a) (m : Nat) (c : Code)
+    (h : a.imulInt ((m + 1 : Nat) : Int) = .ok c) (dom : List Nat → Prop)
+    (hA : ∀ v, dom v → v.length = a.nm ∧ (∀ x ∈ v, x ≤ 1) ∧ ValidOn a v)
+    (H R : Model.Op) (hwf : ∀ tc ∈ H, ∀ f ∈ tc.1, f.2 ≤ 1 ∧ f.1 < a.nm * (m + 1))
+    (v u : List Nat) (hv : ∃ vs : List (List Nat), vs.length = m + 1 ∧ v = vs.flatten ∧ ∀ x ∈ vs, dom x)
+    (hu : ∃ us : List (List Nat), us.length = m + 1 ∧ u = us.flatten ∧ ∀ x ∈ us, dom x)
+    (wq xq s out : Nat) (hw : bitsOf wq = encFn c v) (hx : bitsOf xq = encFn c u)
+    (hs : ∀ j, s.testBit j = (v.getD j 0 == 1)) (ho : ∀ j, out.testBit j = (u.getD j 0 == 1))
+    (hpres : ∀ tc ∈ H, ∀ k s', Spec.actFTerm tc.1 s = some (k, s') →
+      ∃ ws : List (List Nat), ws.length = m + 1 ∧ occList s' (a.nm * (m + 1)) = ws.flatten ∧ ∀ x ∈ ws, dom x)
+    (hR : binaryCodeTransform 0 H c = .ok R) :
+    Sem.den .qubit R [wq] [xq] = Spec.melF H out s :=
+  bct_int_mul_sound' a ha sa m c h dom hA H R hwf v u hv hu wq xq s out hw hx hs ho hpres hR
 
 /-! ## the literal segment codes (tables re-extracted from the source on every run) -/
 
